@@ -597,10 +597,13 @@ def explore_lines(tier):
     pre4 = 'start 0 ; start 1 ; start 2 ; start 3 ; tick 1 ; tick 250'
     lines = ['EXPL t0=5000 ticks=2 depth=200 | L2:30.1a,31.1b F:30.05 | ' + pre2,
              'EXPL t0=5000 ticks=2 depth=200 | L1:251.2 L2:251.1,0.3 | ' + pre2,
-             'EXPL t0=4294967000 ticks=1 depth=200 | L1:30.3 F:30.1 L2:30.2 | ' + pre3,
+             'EXPL t0=4294967000 ticks=0 depth=200 | F:30.3 L1:30.1 F:30.2 | ' + pre3,
+             'EXPL t0=5000 ticks=0 depth=200 | L1:30.2 L1:30.1 F:31.3 | ' + pre3,
              'EXPL t0=5000 ticks=1 depth=200 | F:251.2 L1:251.3 F:0.1 | ' + pre3]
     if thorough:
-        lines += ['EXPL t0=5000 ticks=2 depth=300 | L1:30.3 F:30.1 L2:30.2,31.4 | ' + pre3,
+        lines += ['EXPL t0=4294967000 ticks=1 depth=200 | L1:30.3 F:30.1 L2:30.2 | ' + pre3,
+                  'EXPL t0=4294967000 ticks=0 depth=200 | L1:30.3 F:30.1 F:30.2 | ' + pre3,
+                  'EXPL t0=5000 ticks=2 depth=300 | L1:30.3 F:30.1 L2:30.2,31.4 | ' + pre3,
                   'EXPL t0=5000 ticks=1 depth=300 | L1:30.4 F:30.1 L2:30.2 F:31.3 | ' + pre4,
                   'EXPL t0=5000 ticks=1 depth=300 | L1:30.4 L1:30.1 L1:30.2 L1:30.3 | ' + pre4]
     return lines
